@@ -312,6 +312,21 @@ def check_C12(A: Analysis, tier):
     lockset_rule(A, rc, ["store_metadata", "delete_metadata", "delete_object"], ("META",))
     rules.append(rc)
 
+    rf = Rule("C12", "C12.f", "no call removes a pid's metadata directory: store_metadata creates it and moves the document in under "
+              "the document claim only, so a concurrent directory removal has no common claim with it", floor=1)
+    for m in ("th", "mp"):
+        for e in META_ENTRIES:
+            it = A.api(e, m)
+            rf.inst(f"{e} [{m}]: {sum(1 for ev in it.events if ev.kind in ('REMOVE', 'RENAME'))} remove/rename event(s)")
+            for ev in it.events:
+                if ev.kind in ("REMOVE", "RENAME"):
+                    rf.ob()
+                    for c in primary(ev.classes[0]):
+                        if c.cls in ("METADIR", "ENTITYDIR"):
+                            rf.fail(site_func(ev), site_text(ev), f"{ev.prim} removes the directory {c!r}: a concurrent store_metadata between its mkdir and its "
+                                    "move fails with FileNotFoundError, an error no sequential order produces", site_loc(A, ev))
+    rules.append(rf)
+
     rd = Rule("C12", "C12.e", "metadata-document claims are released on every path (may-held set empty at exits of "
               "store_metadata / delete_metadata / delete_object)", floor=6)
     for m in ("th", "mp"):
